@@ -116,7 +116,12 @@ def answer (line : String) : String :=
             decide (t.yield = toks) && derivable (gramOf V.w3c V.ep (syms V.rows)) 0 t &&
               (!(derivable (gramOf V.impl V.ep (syms V.rows)) 0 t && guardsPass (tableOf V.rows) t) ||
                 (match m with | .ok t' => t' == t | .error _ => false))
-          | none => true
+          | none =>
+            -- the reference parser is not proved complete (`ebnf_complete`): at least, when it rejects, the
+            -- model's tree must not be a strict derivation of the W3C level table
+            (match m with
+             | .ok t' => !(derivable (gramOf V.w3c V.ep (syms V.rows)) 0 t')
+             | .error _ => true)
         -- textual `source` of the model's tree, and whether its pieces are separable / lex back to the tokens
         let (srcS, chain) := match m with
           | .ok t =>
